@@ -89,7 +89,7 @@ def sources(ctx):
             t = blk["term"]
             if t["k"] == "call" and F.callee_name(t) in allowed:
                 inst = "seeding called from %s" % b["name"]
-                if b["name"] == "empty" and b.get("impl_self") == AXE:
+                if b["path"] == ctx.roles.hook_roles()[4]:
                     # the result feeds the matching field of the MachineState aggregate
                     dst = t["dest"][0]
                     fed = None
